@@ -641,3 +641,97 @@ func montClassRaw(am, bm, m *big.Int) string {
 		return "mont:T>=2^256"
 	}
 }
+
+// runHistories: sequences of operations over a small register file with every
+// receiver/operand aliasing, each step compared with the integer model.  The
+// per-call monitors above use fresh operands for every call; a memo, a cache of the
+// last result, a reused scratch or a stale per-object flag only shows when the
+// OUTPUT of one call (possibly computed in place) is the INPUT of the next.
+// Single goroutine, so process-level state is not disturbed by other workers.
+func (api *modAPI[T, PT]) runHistories(r *mon.Run, n int) {
+	m := api.m
+	r.Require(api.name+":hist:steps", api.name+":hist:in-place-then-reuse")
+	r.Seq(api.name+"/histories", n, func(w *mon.W, i int) {
+		rng := w.Rng
+		const regs = 4
+		var lib [regs]PT
+		var val [regs]*big.Int
+		for j := range lib {
+			v, _ := rng.Value(m)
+			lib[j], val[j] = api.mk(rng, v), v
+		}
+		w.Case(true, []byte("hist"), []byte(fmt.Sprint(i)))
+		lastInPlace := -1
+		for s := 0; s < 48; s++ {
+			d, a, b := rng.Intn(regs), rng.Intn(regs), rng.Intn(regs)
+			if rng.Chance(1, 3) {
+				d = a // in place
+			}
+			if lastInPlace >= 0 && rng.Chance(1, 2) {
+				a = lastInPlace // the value just computed in place is the next operand
+				w.Class(api.name + ":hist:in-place-then-reuse")
+			}
+			var want *big.Int
+			op := ""
+			switch rng.Intn(10) {
+			case 0:
+				op, want = "Add", oracle.AddM(val[a], val[b], m)
+				lib[d].Add(lib[a], lib[b])
+			case 1:
+				op, want = "Subtract", oracle.SubM(val[a], val[b], m)
+				lib[d].Subtract(lib[a], lib[b])
+			case 2:
+				op, want = "Multiply", oracle.MulM(val[a], val[b], m)
+				lib[d].Multiply(lib[a], lib[b])
+			case 3:
+				op, want = "Square", oracle.MulM(val[a], val[a], m)
+				lib[d].Square(lib[a])
+			case 4:
+				op, want = "Negate", oracle.NegM(val[a], m)
+				lib[d].Negate(lib[a])
+			case 5, 6:
+				op, want = "Invert", oracle.InvM(val[a], m)
+				lib[d].Invert(lib[a])
+			case 7:
+				ctrl := gen.Pick(rng, gen.CtrlValues...)
+				op, want = "ConditionalSelect", val[a]
+				if ctrl != 0 {
+					want = val[b]
+				}
+				lib[d].ConditionalSelect(lib[a], lib[b], ctrl)
+			case 8:
+				ctrl := gen.Pick(rng, gen.CtrlValues...)
+				op, want = "ConditionalNegate", val[a]
+				if ctrl != 0 {
+					want = oracle.NegM(val[a], m)
+				}
+				lib[d].ConditionalNegate(lib[a], ctrl)
+			default:
+				v, _ := rng.Value(m)
+				op, want = "fresh", v
+				lib[d] = api.mk(rng, v)
+			}
+			lastInPlace = -1
+			if d == a && op != "fresh" {
+				lastInPlace = d
+			}
+			val[d] = want
+			w.Class(api.name + ":hist:steps")
+			got, bad := api.val(lib[d])
+			if bad != "" || got.Cmp(want) != 0 {
+				w.Fail(api.name+"/history/"+op, fmt.Sprintf("step %d: r%d = %s(r%d, r%d) gave %x %s, expected %x", s, d, op, a, b, got, bad, want))
+				return
+			}
+			// the predicates on the value just written
+			o := rng.Intn(regs)
+			if g := lib[d].Equal(lib[o]); g != boolU64(val[d].Cmp(val[o]) == 0) {
+				w.Fail(api.name+"/history/Equal", fmt.Sprintf("step %d: Equal(r%d, r%d) = %d for %x vs %x", s, d, o, g, val[d], val[o]))
+				return
+			}
+			if g := lib[d].IsZero(); g != boolU64(want.Sign() == 0) {
+				w.Fail(api.name+"/history/IsZero", fmt.Sprintf("step %d: IsZero(r%d) = %d for %x", s, d, g, want))
+				return
+			}
+		}
+	})
+}
